@@ -182,4 +182,9 @@ def run(repo, tier) -> Result:
     check_raw_copies("C08", res, repo, want=("method", "append"))
     res.rule("R-TABLE", floor=60)
     res.rule("R-BIND", floor=8)
+    from ..framework_rules import check_registry_writers
+    from ..ownership import check_manager_purge
+
+    check_registry_writers("C08", res, repo)
+    check_manager_purge("C08", res, repo)
     return res
